@@ -39,6 +39,9 @@ func constString(e ast.Expr) (string, bool) {
 	case *ast.ParenExpr:
 		return constString(t.X)
 	}
+	if ce, ok := e.(*ast.CallExpr); ok && len(ce.Args) == 1 {
+		return constString(ce.Args[0])
+	}
 	return "", false
 }
 
@@ -46,13 +49,12 @@ func writeTables(ctx *common.Ctx) {
 	fset := token.NewFileSet()
 	f, err := parser.ParseFile(fset, common.RepoDir()+"/code.go", nil, 0)
 	if err != nil {
-		ctx.Violate("translator failed to parse code.go", nil, err.Error(), nil)
-		return
+		panic("c02 translator: cannot parse code.go: " + err.Error())
 	}
 	found := map[string]string{}
 	for _, d := range f.Decls {
 		gd, ok := d.(*ast.GenDecl)
-		if !ok || gd.Tok != token.CONST {
+		if !ok || (gd.Tok != token.CONST && gd.Tok != token.VAR) {
 			continue
 		}
 		for _, sp := range gd.Specs {
@@ -73,8 +75,8 @@ func writeTables(ctx *common.Ctx) {
 	for goName, m := range tableNames {
 		tbl, ok := found[goName]
 		if !ok || len(tbl) < 256 {
-			ctx.Violate("mode table not found in code.go (or shorter than 256 bytes)", goName, len(tbl), nil)
-			continue
+			// without the table the model cannot be instantiated: stop (a harness failure, not a failing input)
+			panic(fmt.Sprintf("c02 translator: mode table %s not found in code.go (or shorter than 256 bytes: %d); the translator must be adapted to the new source layout", goName, len(tbl)))
 		}
 		var xs []string
 		for i := 0; i < 256; i++ {
@@ -86,8 +88,7 @@ func writeTables(ctx *common.Ctx) {
 	sb.WriteString("Definition tables : mode -> list N := fun m => match m with\n" + strings.Join(sortStrings(cases), "\n") + "\n  end.\n")
 	em, ok := found["escByteMap"]
 	if !ok || len(em) < 256 {
-		ctx.Violate("escByteMap not found in code.go", nil, len(em), nil)
-		em = strings.Repeat(".", 257)
+		panic(fmt.Sprintf("c02 translator: escByteMap not found in code.go (%d bytes); the translator must be adapted to the new source layout", len(em)))
 	}
 	var xs []string
 	for i := 0; i < 256; i++ {
